@@ -327,3 +327,51 @@ func VP_C12_withdata_state() {
 	}
 	vp.Cover("end")
 }
+
+
+// reload a container over the wire into a previously used container of the
+// same (hash-palette) width, then keep mutating it: still an array.
+func VP_C12_reload_mutate() {
+	const L = 64
+	mk := func(base int) (*PaletteContainer[BlocksState], []BlocksState) {
+		npal := 17
+		pat := make([]BlocksState, npal)
+		for i := range pat {
+			pat[i] = BlocksState(base + 3*i)
+		}
+		bits := 5
+		vpl := 64 / bits
+		data := make([]uint64, (L+vpl-1)/vpl)
+		model := make([]BlocksState, L)
+		for i := 0; i < L; i++ {
+			k := (i*7 + i/5) % npal
+			data[i/vpl] |= uint64(k) << uint((i%vpl)*bits)
+			model[i] = pat[k]
+		}
+		return NewStatesPaletteContainerWithData(L, data, pat), model
+	}
+	src, model := mk(100)
+	dst, _ := mk(1000) // used container, same width, different palette
+	var w bytes.Buffer
+	_, err := src.WriteTo(&w)
+	vp.Assert(err == nil, "WriteTo")
+	_, err = dst.ReadFrom(bytes.NewReader(w.Bytes()))
+	vp.Assert(err == nil, "ReadFrom")
+	j := vpIndex(L)
+	var want BlocksState
+	for i := 0; i < L; i++ {
+		if i == j {
+			want = model[i]
+		}
+	}
+	vp.Assert(dst.Get(j) == want, "position preserved over the wire into a used container")
+	// keep mutating after the reload: any value, including ones the old palette knew
+	at, v := vpIndex(L), vpStateID()
+	dst.Set(at, v)
+	if j == at {
+		vp.Assert(dst.Get(j) == v, "Set after reload stores the value")
+	} else {
+		vp.Assert(dst.Get(j) == want, "Set after reload leaves other positions alone")
+	}
+	vp.Cover("end")
+}
